@@ -362,7 +362,9 @@ impl BangType {
 //@end
 
 //@extract reader::BangType::to_err | src/reader/mod.rs :: impl BangType :: fn to_err | serves=C01,C03
- fn to_err(&self) -> SyntaxError {
+ pub fn to_err(&self) -> (r: SyntaxError)
+        ensures r == self.spec_to_err()
+ {
         match self {
             Self::CData => SyntaxError::UnclosedCData,
             Self::Comment => SyntaxError::UnclosedComment,
